@@ -118,6 +118,48 @@ Scheme JValue_min := Minimality for JValue Sort Prop
   with JMembers_min := Minimality for JMembers Sort Prop.
 Combined Scheme JValue_mutind from JValue_min, JElems_min, JMembers_min.
 
+(* ---- unpaired surrogate escapes, as a property of the text ----
+   In a JSON text backslashes occur only inside strings, where each one starts an escape; the scan pairs every backslash
+   with the character after it and, at a uXXXX escape whose value is a surrogate, demands a high surrogate immediately
+   followed by a uXXXX escape that is a low surrogate. (hex4 / is_surrogate are the executable forms of hex4_is /
+   surrogate: JsonProofs.hex4_spec, is_surrogate_true.) *)
+Fixpoint no_lone_surrogate_escape (s : str) : bool :=
+  match s with
+  | [] => true
+  | c :: r =>
+    if c =? 0x5c then
+      match r with
+      | [] => true
+      | e :: r1 =>
+        if e =? 0x75 then
+          match r1 with
+          | h1 :: h2 :: h3 :: h4 :: r4 =>
+            match hex4 h1 h2 h3 h4 with
+            | Some code =>
+              if is_surrogate code then
+                if code <? 0xDC00 then
+                  match r4 with
+                  | b :: u :: g1 :: g2 :: g3 :: g4 :: r10 =>
+                    if (b =? 0x5c) && (u =? 0x75) then
+                      match hex4 g1 g2 g3 g4 with
+                      | Some lo => if (0xDC00 <=? lo) && (lo <=? 0xDFFF) then no_lone_surrogate_escape r10 else false
+                      | None => false
+                      end
+                    else false
+                  | _ => false
+                  end
+                else false
+              else no_lone_surrogate_escape r4
+            | None => no_lone_surrogate_escape r4
+            end
+          | _ => true
+          end
+        else no_lone_surrogate_escape r1
+      end
+    else no_lone_surrogate_escape r
+  end.
+
+
 (* ---- what the serialiser theorems quantify over ---- *)
 (* every code point of a string is at most 0x10FFFF (always true of a Rust String) *)
 Definition str_ok (s : str) : Prop := Forall (fun c => c <= 0x10ffff) s.
